@@ -28,6 +28,10 @@ def run(tier, seed, replay=None):
     n = 200 if tier == "quick" else 4000
     lines, wd = subfam.run_family(ck, binary, "close", n, seed, strict=True)
     shutil.rmtree(wd, ignore_errors=True)
+    # shutdown with a listener that has never read: its backlog (about 90 notifications, 270 in one run of eight) must not keep
+    # the distributor, and so Close, from finishing
+    more, wd = subfam.run_family(ck, binary, "stall", 16 if tier == "quick" else 96, seed, strict=True)
+    shutil.rmtree(wd, ignore_errors=True)
     ck.cov["close_returns_checked"] = sum(1 for ln in lines if '"env.close.ret"' in ln)
     ck.cov["rule"] = ("seeded random schedules in which one or two concurrent Close calls start at a random point of announce-triggered and explicit syncs, "
                       "listener registration and notification delivery; TLC validates on the trace that when a Close returns no lock is held, and that no block hook, "
